@@ -61,6 +61,9 @@ NEEDED = {
  'C15-8': 'the user probe is a battery (deposit, withdraw, close-balance of an empty position); C14 caught it as it stood',
  'C16-8': 'forged root F4 (a disabled account with positions) and the rule that the account a disabled source is moved to is disabled too',
  'C19-8': "the reference keeps its own ledger of when a position was last touched; rewards switched off / on in the sequences; a budget variant that starts switched off",
+ # round 4
+ 'C01-10': 'world G: world A in a group whose program fees the global fee admin switched off (C01 and C06)',
+ 'C02-10': 'forged root R3w: a bankruptcy one step away that wipes the bank out (debt of one and a half times all deposits)',
  'C20-7': 'reserve-composition sweep: total liquidity = available + borrowed - fees with fees above the borrowed amount, fractional parts, through the real Kamino / Solend total-liquidity functions and conversions',
  'C08-7': '(caught by the sibling check C10: two start instructions in one transaction)',
  'C08-8': "C12 'nobody' cells: the permissionless staked-settings propagation aimed at ordinary banks",
